@@ -376,6 +376,11 @@ def scenarios(tier):
         ch = [[rng(p, p) for p in ports[i:i + 200]] for i in range(0, 401, 200)]
         sc.append({"name": "udp-chunked-401", "args": ["udp", "--json", "-p", ",".join(map(str, ports))] + COMMON + ["--exit-delay", "400ms", "10.9.3.1"], "files": {"empty": ""},
                    "expect": packet_expect("udp", target(a(1), 32, [r for c in ch for r in c]), ch, [200, 200, 1], 400)})
+        # a reply after more than ten seconds of silence inside a 13 s exit delay (an idle AF_PACKET socket times out every 100 ms:
+        # more than a hundred transient read failures in a row before the frame)
+        sc.append({"name": "late-reply-after-long-silence", "args": ["tcp", "syn", "--json", "-p", "80"] + COMMON + ["--exit-delay", "13s", "10.9.3.1"], "files": {"empty": ""}, "maxMs": 30000,
+                   "inject": [{"bytes": tcp_reply(a(1), 80, 0x12), "afterProbe": 1, "delayMs": 11500}],
+                   "expect": packet_expect("tcpsyn", target(a(1), 32, [rng(80, 80)]), [[rng(80, 80)]], [1], 13000)})
     for i, s in enumerate(sc):
         s["id"] = i + 1
         s.setdefault("inject", [])
